@@ -16,6 +16,8 @@
 //	                       occurrence of equal results; map argument with a named scope variable: one result
 //	                       per entry in key order with the variable bound to (key, value); otherwise one result
 //	m.attr                 on a (key, value) pair: the key / the value / an attribute of the value
+//	a == null, a != null   null equals null only; an int, a string or a list on the left, or an int or a string on the
+//	                       right of null, is not null; s in null is false (other kinds against null have no value)
 //	str(x)                 decimal ints, true/false, [a, b], {k: v} with sorted entries
 //	f(args)                a view of the application named f, whatever the name (body on the argument values, own
 //	                       scope); else .count; else the native helper named f = the Go function of that name on
@@ -52,6 +54,9 @@ type refCtx struct {
 	steps int
 	// some native helper returned an empty list during this run (fixes/C10-4: that used to end the process)
 	emptyHelperList bool
+	// variant used only to ATTRIBUTE a wrong value to the known finding set-transform-over-map-keeps-duplicates: a
+	// `set of` transform over the entries of a map keeps equal results
+	mapSetKeepsDups bool
 }
 
 // set by refRun: the last reference run saw a native helper return an empty list
@@ -331,7 +336,7 @@ func (rc *refCtx) transform(en *env, e *Expr) (*Val, error) {
 			xs = append(xs, vMap([]KV{{"key", vStr(kv.Key)}, {"value", kv.V}}))
 		}
 		if e.Ty == "set" {
-			out, err := each(xs, true)
+			out, err := each(xs, !rc.mapSetKeepsDups)
 			return vSet(out), err
 		}
 		out, err := each(xs, false)
@@ -458,6 +463,12 @@ func (rc *refCtx) bin(en *env, e *Expr) (*Val, error) {
 			eq = l.S == r.S
 		case bb:
 			eq = l.B == r.B
+		case l.K == "null" && r.K == "null":
+			eq = true
+		case (l.K == "null" && (r.K == "i" || r.K == "s")) || (r.K == "null" && (l.K == "i" || l.K == "s" || l.K == "l")):
+			// a number, a string or a list is not null (an attribute that is missing or null compared with null, a value
+			// compared with a missing attribute); null on the left of a list has no table row and no value here
+			eq = false
 		default:
 			return nil, undefined("%s on %s,%s", e.Op, l.K, r.K)
 		}
@@ -503,6 +514,8 @@ func (rc *refCtx) bin(en *env, e *Expr) (*Val, error) {
 			}
 		case "m":
 			_, found = mapGet(r, l.S)
+		case "null":
+			found = false // nothing is a member of null (`"a" in x.tags` for a record without tags)
 		default:
 			return nil, undefined("membership in %s", r.K)
 		}
@@ -563,9 +576,14 @@ func (rc *refCtx) bin(en *env, e *Expr) (*Val, error) {
 
 // refRun: value of the main view, and - when the main body is a transform evaluated once - the values of its
 // top-level lets in order.
-func refRun(p *Prog) (*Val, []KV, error) {
-	rc := &refCtx{views: map[string]*View{}}
-	defer func() { lastRefEmptyHelperList = rc.emptyHelperList }()
+func refRun(p *Prog) (*Val, []KV, error) { return refRunOpt(p, false) }
+
+// refRunOpt: mapSetKeepsDups selects the variant semantics described at refCtx (attribution of a known finding only)
+func refRunOpt(p *Prog, mapSetKeepsDups bool) (*Val, []KV, error) {
+	rc := &refCtx{views: map[string]*View{}, mapSetKeepsDups: mapSetKeepsDups}
+	if !mapSetKeepsDups {
+		defer func() { lastRefEmptyHelperList = rc.emptyHelperList }()
+	}
 	var main *View
 	for i := range p.Views {
 		rc.views[p.Views[i].Name] = &p.Views[i]
